@@ -8,8 +8,9 @@ export GOFLAGS=-mod=mod GOPROXY=off GOSUMDB=off GOTOOLCHAIN=local
 COPY=$(mktemp -d /tmp/mutconf-XXXXXX)
 trap 'rm -rf "$COPY"' EXIT
 cp -r /repo/. "$COPY"/ && cd "$COPY" && git checkout -q -- . || exit 3
-rel=$(grep -hoE "(v2/[a-z/]*|cmd/[a-z/]*)zz_seed_${ID}_${V}[A-Za-z0-9_]*\.go" "$SD/README.md" | head -1)
-[ -z "$rel" ] && rel="zz_seed_${ID}_${V}_test.go"
+FP="${SEED_FILEPFX:-zz_seed}"; TP="${SEED_TESTPFX:-TestSeed}"
+rel=$(grep -hoE "(v2/[a-z/]*|cmd/[a-z/]*)${FP}_${ID}_${V}[A-Za-z0-9_]*\.go" "$SD/README.md" | head -1)
+[ -z "$rel" ] && rel="${FP}_${ID}_${V}_test.go"
 dir=$(dirname "$rel")
 demo=$(ls "$SD"/demo*_test.go "$SD"/demo_test.go 2>/dev/null | head -1)
 [ -z "$demo" ] && { echo "DEMO-NOT-CONFIRMED no demo test file"; exit 1; }
@@ -21,12 +22,12 @@ case "$dir" in
 esac
 TAGS=""; grep -q -- "-tags verif" "$SD/README.md" && TAGS="-tags verif"
 git apply "$SD/patch.diff" || { echo "DEMO-NOT-CONFIRMED patch does not apply"; exit 1; }
-( cd "$COPY/$mod" && timeout 900 go test $TAGS -count=1 -run "TestSeed${ID}${V}" "$pkg" ) > "$COPY/with.log" 2>&1; rc_with=$?
+( cd "$COPY/$mod" && timeout 900 go test $TAGS -count=1 -run "${TP}${ID}${V}" "$pkg" ) > "$COPY/with.log" 2>&1; rc_with=$?
 git apply -R "$SD/patch.diff"
-( cd "$COPY/$mod" && timeout 900 go test $TAGS -count=1 -run "TestSeed${ID}${V}" "$pkg" ) > "$COPY/without.log" 2>&1; rc_without=$?
+( cd "$COPY/$mod" && timeout 900 go test $TAGS -count=1 -run "${TP}${ID}${V}" "$pkg" ) > "$COPY/without.log" 2>&1; rc_without=$?
 ran=$(grep -c "^ok\|^--- \|^FAIL\|^PASS" "$COPY/without.log")
 if [ $rc_with -ne 0 ] && [ $rc_without -eq 0 ] && ! grep -q "no tests to run" "$COPY/without.log"; then
-  echo "DEMO-CONFIRMED place=$rel run='cd $mod && go test -count=1 -run TestSeed${ID}${V} $pkg' with_change=FAIL without_change=PASS"
+  echo "DEMO-CONFIRMED place=$rel run='cd $mod && go test -count=1 -run ${TP}${ID}${V} $pkg' with_change=FAIL without_change=PASS"
 else
   echo "DEMO-NOT-CONFIRMED rc_with=$rc_with rc_without=$rc_without place=$rel"; tail -5 "$COPY/with.log"; tail -5 "$COPY/without.log"
 fi
